@@ -47,8 +47,41 @@ def do_solve(req):
         r['log'] = msgs[:3]
         return r
     atoms = req.get('atoms', False)
+    top = [0]
+
+    class MaxAtom(clingo.Observer):
+        """largest program atom seen (rule heads/bodies, externals, output table): needed to recognise an answer that clasp reports twice"""
+        def rule(self, choice, head, body):
+            for x in head:
+                top[0] = max(top[0], abs(x))
+            for x in body:
+                top[0] = max(top[0], abs(x))
+
+        def weight_rule(self, choice, head, lower_bound, body):
+            for x in head:
+                top[0] = max(top[0], abs(x))
+            for x, _ in body:
+                top[0] = max(top[0], abs(x))
+
+        def external(self, atom, value):
+            top[0] = max(top[0], abs(atom))
+
+        def output_atom(self, symbol, atom):
+            top[0] = max(top[0], abs(atom))
+    if not req.get('keep_exact_duplicates'):
+        prg.register_observer(MaxAtom())
+    seen = set()
+    out['exact_duplicates'] = 0
 
     def on_model(m, step):
+        if top[0]:
+            # clasp 5.8.2 sometimes reports one and the same assignment twice (identical on EVERY program atom, shown or not; findings
+            # F10/F14, DESIGN.md section 11): such exact repetitions are collapsed and counted, everything else is kept with multiplicity
+            sig = (step, tuple(a for a in range(1, top[0] + 1) if m.is_true(a)))
+            if sig in seen:
+                out['exact_duplicates'] += 1
+                return
+            seen.add(sig)
         syms = m.symbols(atoms=True) if atoms else m.symbols(shown=True)
         out['models'].append([step, sorted((sym_to_tuple(s) for s in syms), key=lambda x: (x[0], x[1], -1 if x[2] is None else x[2], x[3]))])
     calls = []
